@@ -1,3 +1,5 @@
 pub mod c06;
 pub mod c14;
 pub mod c16;
+pub mod structs;
+pub mod c05;
